@@ -317,6 +317,53 @@ class Ctx:
         return {"bad": bad, "stats": stats, "events": events}, {"generated": gen, "distinct": dist, "parts": len(files)}
 
 
+def binding_selftest(ctx, module, cfg, trace_path, corruptors, max_cases=400):
+    """Demonstrates that the trace specification is bound to what was recorded: for each corruptor a copy of one
+    accepted case of the trace with one recorded field altered must be rejected.  corruptors: list of
+    (name, fn(events) -> altered events or None if the case offers nothing to alter).  Returns
+    {name: "rejected"}; raises Infra if a corrupted trace is accepted or no case could be corrupted."""
+    cases, cur = [], []
+    with open(trace_path) as f:
+        for line in f:
+            e = json.loads(line)
+            if e.get("op") == "reset" and cur:
+                cases.append(cur)
+                cur = []
+                if len(cases) >= max_cases:
+                    break
+            cur.append(e)
+    if cur and len(cases) < max_cases:
+        cases.append(cur)
+    out = {}
+    for name, fn in corruptors:
+        done = False
+        for evs in cases:
+            alt = fn(json.loads(json.dumps(evs)))
+            if alt is None:
+                continue
+            # the unaltered case must be accepted, the altered one rejected
+            res = []
+            for tag, body in (("orig", evs), ("alt", alt)):
+                fp = os.path.join(ctx.scr, "selftest_%s_%s.ndjson" % (name, tag))
+                with open(fp, "w") as g:
+                    for e in body:
+                        e = dict(e)
+                        e["case"] = 0
+                        g.write(json.dumps(e) + "\n")
+                v, _ = ctx.validate(module, cfg, fp, parts=1)
+                res.append(len(v["bad"]))
+            if res[0] != 0:
+                continue      # this case is itself rejected (a known finding): take another one
+            if res[1] == 0:
+                raise Infra("binding self-test %s: %s accepts a trace in which a recorded field was altered" % (name, module))
+            out[name] = "rejected"
+            done = True
+            break
+        if not done:
+            raise Infra("binding self-test %s: no accepted case in the first %d offers the field to alter" % (name, max_cases))
+    return out
+
+
 def nlines_hint(path):
     n = 0
     with open(path, "rb") as f:
